@@ -79,10 +79,15 @@ func decodeElementConstExprVector(r *bytes.Reader, elemType wasm.RefType, enable
 			}
 			vec[i] = wasm.ElementInitNullReference
 		case wasm.OpcodeGlobalGet:
-			i32, _, _ := leb128.LoadInt32(expr.Data)
+			globalIndex, _, err := leb128.LoadUint32(expr.Data)
+			if err != nil {
+				return nil, fmt.Errorf("read global index: %w", err)
+			} else if globalIndex >= wasm.MaximumFunctionIndex { // must not reach the flag bits of an init item.
+				return nil, fmt.Errorf("too large global index in Element init: %d", globalIndex)
+			}
 			// Resolving the reference type from globals is done at instantiation phase. See the comment on
 			// wasm.elementInitImportedGlobalReferenceType.
-			vec[i] = wasm.WrapGlobalIndexAsElementInit(wasm.Index(i32))
+			vec[i] = wasm.WrapGlobalIndexAsElementInit(globalIndex)
 		default:
 			return nil, fmt.Errorf("const expr must be either ref.null or ref.func but was %s", wasm.InstructionName(expr.Opcode))
 		}
